@@ -1,6 +1,7 @@
 """C15 — URLPattern construction canonicalises components exactly as the URL parser does."""
 import lib
 import patlib
+import patcanoncorr
 import wpt
 import patcons
 from lib import hx, unhx
@@ -49,6 +50,8 @@ def check(run):
     idna_via = wpt.idna_via_harness(binp)
     rng = run.rng
     patlib.run_wpt(run, binp)
+    # L1: the callbacks themselves against their Lean models (Model/PatternCanon.lean; Props/C15 proves the models equal to the Standard's)
+    patcanoncorr.explore(run, binp, 14000 if run.tier == "quick" else 150000)
 
     bases = base_components(binp, BASES, idna_via)
     n = 18000 if run.tier == "quick" else 120000
